@@ -88,9 +88,18 @@ def deep_answer_scenarios():
               "deep/1": [clause(C("deep", X), conj(call(C("=", X, lst([I(i) for i in range(100)] + [Y]))), call(C("val", Y))))],
               "deep2/2": [clause(C("deep2", X, Y), conj(call(C("mk", X, V(2))), call(C("val", V(2))), call(C("=", Y, V(2)))))],
               "mk/2": [clause(C("mk", lst([V(0)]), V(0))), clause(C("mk", lst([I(0)], V(0)), V(1)), call(C("mk", V(0), V(1))))],
-              "len/1": [clause(C("len", NIL))] }
+              "len/1": [clause(C("len", NIL))],
+              # answers that grow by one level each: under evaluate_bounded's limit it is the dereferencing of the
+              # answer (in the projection) or the search itself that runs out of stack first, depending on the shape
+              "nat/1": [clause(C("nat", A("z"))), clause(C("nat", C("s", X)), call(C("nat", X)))],
+              "wide/1": [clause(C("wide", A("z"))), clause(C("wide", C("s", X, Y, Y)), conj(call(C("wide", X)), call(C("=", Y, A("leaf")))))]}
     sk = lst([V(900 + i) for i in range(60)])      # a list skeleton of 60 unknowns: mk walks down and puts the late variable at the end
     scns = []
+    for g, qnv, k in ((C("nat", V(0)), 1, 70), (C("wide", V(0)), 1, 70)):
+        for via in ({"exc": "Exception", "prefix": True}, {"exc": "Exception", "prefix": True, "limit": 120}, {"exc": "SystemExit", "prefix": True, "limit": 300}):
+            scns.append({"scripts": {"P": script}, "py": True, "keys": [],
+                         "steps": [[{"op": "load", "e": 1, "script": "P", "ow": True}], [{"op": "solve", "e": 1, "r": 1, "goal": g, "qnv": qnv, "k": k, "via": via}],
+                                   [{"op": "solve", "e": 1, "r": 2, "goal": C("val", V(0)), "qnv": 1, "k": 0}], [{"op": "solve", "e": 1, "r": 3, "goal": g, "qnv": qnv, "k": 3}]]})
     for g, qnv in ((C("deep", V(0)), 1), (C("deep2", lst([V(i + 1) for i in range(40)]), V(0)), 41)):
         for via in (None, {"exc": "Exception", "prefix": True}, {"exc": "Exception", "prefix": True, "limit": 120}, {"exc": "Exception", "limit": 5000}, {"exc": "KeyboardInterrupt", "limit": 5000}):
             op = {"op": "solve", "e": 1, "r": 1, "goal": g, "qnv": qnv, "k": 0 if not via or via.get("exc") == "Exception" else 2}
